@@ -884,7 +884,17 @@ func parseSpecFile(path string) (*SpecFile, error) {
 			}
 			hdr, body := strings.TrimSpace(c.rest[:i]), strings.TrimSpace(c.rest[i+2:])
 			open := strings.Index(hdr, "(")
-			cls := strings.LastIndex(hdr, ")")
+			cls := -1
+			for k, depth := open, 0; open >= 0 && k < len(hdr); k++ {
+				if hdr[k] == '(' {
+					depth++
+				} else if hdr[k] == ')' {
+					if depth--; depth == 0 {
+						cls = k
+						break
+					}
+				}
+			}
 			if open < 0 || cls < open {
 				return nil, fail(c, "bad smtdef header")
 			}
